@@ -598,12 +598,12 @@ def error_problem(spec, root, e, fmt=None):
             if node[1] is Nil or not _same(e.expected_value, node[1]):
                 return name + ": expected_value is not the declared value"
     elif isinstance(e, VE.MinValueValidationError):
-        if not (sub < e.min_value):
+        if sub >= e.min_value:          # true of a NaN as well: it is not within the bound
             return name + ": value is not below min"
         if node is not None and (node[0] not in ("int", "float") or not _same(e.min_value, node[2])):
             return name + ": min_value is not the declared min"
     elif isinstance(e, VE.MaxValueValidationError):
-        if not (sub > e.max_value):
+        if sub <= e.max_value:
             return name + ": value is not above max"
         if node is not None and (node[0] not in ("int", "float") or not _same(e.max_value, node[3])):
             return name + ": max_value is not the declared max"
